@@ -120,6 +120,21 @@ impl Report {
         true
     }
 
+    /// Fast path for hot loops: true when `fingerprint` is a known finding or was already
+    /// reported in this run — the occurrence is counted and nothing else needs to be built.
+    pub fn count_if_seen(&self, fingerprint: &str) -> bool {
+        let mut g = self.inner.lock().unwrap();
+        if self.is_known(fingerprint) {
+            *g.known_seen.entry(fingerprint.to_string()).or_insert(0) += 1;
+            return true;
+        }
+        if let Some(e) = g.violations.get_mut(fingerprint) {
+            e.0 += 1;
+            return true;
+        }
+        false
+    }
+
     pub fn machinery_error(&self, msg: &str) {
         eprintln!("MACHINERY-ERROR {}: {}", self.id, msg);
         self.inner
